@@ -901,8 +901,84 @@ def self_cancel(ctx, n):
                            'receiving TaskCancelled(task, ...) at %r' % (d0, log, want, d0), family='self-cancel')
 
 
+def falsy_outcomes(ctx, n):
+    """directed family (direct API): what a task ends with is delivered to every awaiter whatever its truth value - a result
+    that is falsy (0, '', None, [], False) is returned, an exception object that is falsy (a collection-like error with
+    `__len__() == 0`, an error with `__bool__() == False`) is RAISED, before and after completion, any number of times"""
+    import usim
+    from usim import time
+
+    class EmptyReport(Exception):
+        def __len__(self):
+            return 0
+
+    class Quiet(Exception):
+        def __bool__(self):
+            return False
+    for _ in range(n):
+        kind = ctx.rng.choice(['empty-report', 'quiet', 'value'])
+        val = ctx.rng.choice([0, '', None, [], False])
+        d = ctx.rng.choice([0, 1, 2])
+        err = EmptyReport('nothing to complain about') if kind == 'empty-report' else Quiet('quiet') if kind == 'quiet' else None
+        case = {'falsy_outcome': dict(kind=kind, value=repr(val), after=d)}
+        log = []
+
+        async def child():
+            if d:
+                await (time + d)
+            if err is not None:
+                raise err
+            return val
+
+        async def awaiter(task, tag, delay):
+            if delay:
+                await (time + delay)
+            for _i in range(2):
+                try:
+                    r = await task
+                    log.append((tag, 'returned', r is val if err is None else repr(r), time.now))
+                except BaseException as e:   # noqa
+                    log.append((tag, 'raised', e is err, time.now))
+                    if not isinstance(e, Exception):
+                        raise
+
+        async def host(holder):
+            # the task lives in a scope of its own: its failure ends THAT scope, the awaiters are somewhere else
+            try:
+                async with usim.Scope() as inner:
+                    holder.append(inner.do(child()))
+                    await (time + (d + 5))
+            except usim.Concurrent:
+                pass
+
+        async def main():
+            holder = []
+            async with usim.Scope() as scope:
+                scope.do(host(holder))
+                await usim.instant
+                scope.do(awaiter(holder[0], 'early', 0))
+                scope.do(awaiter(holder[0], 'late', d + 2))
+        try:
+            watch.run(main())
+        except BaseException as e:   # noqa
+            ctx.fail(case, 'run() raised %r after %r' % (e, log), family='falsy-outcomes')
+            continue
+        ctx.count(case, nontrivial=True)
+        ctx.bump('family:falsy-outcomes')
+        what = ('returned', True) if err is None else ('raised', True)
+        want_late = [('late',) + what + (d + 2,)] * 2
+        late = [x for x in log if x[0] == 'late']
+        early = [x for x in log if x[0] == 'early']
+        ok = early == [('early',) + what + (d,)] * 2 and late == want_late
+        if not ok:
+            ctx.fail(case, 'a task ending with %s at %r: its awaiters observed %r; expected every one of them to have it %s'
+                     % ('the falsy exception %r' % err if err is not None else 'the falsy result %r' % (val,), d, log,
+                        'raised' if err is not None else 'returned'), family='falsy-outcomes')
+
+
 def run(ctx):
     _run_vertical(ctx)
+    falsy_outcomes(ctx, ctx.n(20, 200))
     self_cancel(ctx, ctx.n(6, 60))
     cancel_nested(ctx, ctx.n(30, 400))
     prestart_cancel(ctx, ctx.n(30, 400))
